@@ -70,5 +70,5 @@ func (d Exec) Apply(opt *Option, profileRaw string) (string, error) {
 	rules = rules.Sort()
 	new := rules.String()
 	new = new[:len(new)-1]
-	return strings.ReplaceAll(profileRaw, opt.Raw, new), nil
+	return replaceDirective(profileRaw, opt.Raw, new), nil
 }
